@@ -43,20 +43,32 @@ impl<'a> BerDecoder<'a> for SnmpReal {
 
                 // 8.5.7.4 Bits 2 to 1 of the first contents octet
                 // shall encode the format of the exponent as follows:
-                let ln = (f & 0x03) as usize + 2;
-                if i.len() < ln {
+                // 00 => single octet, 01 => 2 octets, 10 => 3 octets,
+                // 11 => next octet holds the number of exponent octets
+                let (e_start, e_len) = match f & 0x03 {
+                    0x03 => (2, *i.get(1).ok_or(SnmpError::InvalidData)? as usize),
+                    n => (1, n as usize + 1),
+                };
+                let ln = e_start + e_len;
+                if e_len == 0 || e_len > 4 || i.len() < ln {
                     return Err(SnmpError::InvalidData);
                 }
-                let e = SnmpReal::parse_u32(&i[1..ln]) as i32;
-                let mut v: f64 = SnmpReal::parse_u32(&i[ln..]).into();
+                // The exponent is a two's complement binary number
+                let e = i[e_start..ln].iter().fold(
+                    if i[e_start] & 0x80 == 0 { 0i32 } else { -1i32 },
+                    |acc, &x| (acc << 8) | (x as i32),
+                );
+                // 8.5.7.5: The remaining contents octets encode the value
+                // of the integer N as an unsigned binary number.
+                let mut v: f64 = i[ln..].iter().fold(0.0, |acc, &x| acc * 256.0 + (x as f64));
                 // 8.5.7.3: Bits 4 to 3 of the first contents octet shall
                 // encode the value of the binary scaling factor F
                 // as an unsigned binary integer.
                 match (f & 0x0c) >> 2 {
+                    0 => {}
                     1 => v *= 2.0,
                     2 => v *= 4.0,
-                    3 => v *= 8.0,
-                    _ => return Err(SnmpError::InvalidData),
+                    _ => v *= 8.0,
                 }
                 // 8.5.7.2: Bits 6 to 5 of the first contents octets
                 // shall encode the value of the base B' as follows:
@@ -91,8 +103,8 @@ impl<'a> BerDecoder<'a> for SnmpReal {
                     // ISO 6093 NR1: i.e. 456
                     1 => {
                         let s = from_utf8(&i[1..]).map_err(|_| SnmpError::InvalidData)?;
-                        let v = s.parse::<i32>().map_err(|_| SnmpError::InvalidData)?;
-                        v.into()
+                        let v = s.parse::<i64>().map_err(|_| SnmpError::InvalidData)?;
+                        v as f64
                     }
                     // ISO 6093 NR2: i.e. 456.7
                     2 => {
@@ -113,16 +125,6 @@ impl<'a> BerDecoder<'a> for SnmpReal {
             0b01000011 => -0.0,
             _ => return Err(SnmpError::InvalidData),
         }))
-    }
-}
-
-impl SnmpReal {
-    fn parse_u32(i: &[u8]) -> u32 {
-        let mut v = 0u32;
-        for &n in i.iter() {
-            v = (v << 8) | (n as u32);
-        }
-        v
     }
 }
 
